@@ -8,7 +8,7 @@ from harness.common import pmap
 from harness.langenum import enumerate_languages, near_misses
 
 
-class Timeout(Exception):
+class Timeout(BaseException):
     pass
 
 
